@@ -132,7 +132,7 @@ func lemmaHeaderRoundTrip(pre []byte, h header) (ok bool) {
 //@   requires n != nil && 0 <= off && off <= 1<<40
 //@   ensures  err != nil ==> newOff == off
 //@   ensures  err == nil ==> 1 <= n.Length && n.Length <= 254 && newOff > off && newOff <= len(msg)
-//@   loop 1 invariant 0 <= currOff && currOff <= 1<<41 && 0 <= ptr && ptr <= 10
+//@   loop 1 invariant 0 <= currOff && currOff <= 1<<49 && 0 <= ptr && ptr <= 10
 //@   loop 1 invariant 0 <= len(name) && len(name) <= 254 && cap(name) == 255 && samebase(name, atloop(name)) && suboff(name, atloop(name)) == 0
 //@   loop 1 invariant ptr == 0 ==> (newOff == off && off <= currOff)
 //@   loop 1 invariant ptr > 0 ==> (off < newOff && newOff <= len(msg))
